@@ -136,6 +136,8 @@ class Interp:
         self.call_depth = 0
         self.loop_ordinals = {}
         self.drops = []
+        self.qctx = []
+        self.extra_outputs = {}
 
     # ------------------------------------------------------------ symbols
     def fresh_name(self, base):
@@ -328,6 +330,21 @@ class Interp:
             if self.choose(None, label):
                 return i
         return n - 1
+
+    def require_safe(self, cond, exc_factory, what):
+        """`cond` must hold or the program raises.  Normally a decision; inside a
+        quantified (pure) context it becomes an obligation closed over the bound
+        variables, so that the quantified term is only used where it is defined."""
+        if smt.is_true(cond):
+            return
+        if self.pure and self.qctx:
+            goal = cond
+            for bound, rng in reversed(self.qctx):
+                goal = smt.ForAll(bound, smt.Implies(rng, goal))
+            self.oblige('safe/%s' % what, 'pre', goal, what)
+            return
+        if not self.choose(cond):
+            raise TargetExc(exc_factory())
 
     def oblige(self, name, kind, goal, where=''):
         if smt.is_true(goal):
